@@ -392,7 +392,7 @@ func runC20(c *Ctx) error {
 	c.Rep.Rule = "backtrace: programs built from a random call tree of depth 1..7 (up to ~25 functions and methods emitted in random order, completed calls before the fault, recursion of depth 1..30), calls as statement / in an expression / in if, else, for, range and switch bodies / through a function value / as an argument of another call / with arguments over several lines, one fault among 12 kinds (index, negative index, slice bounds, string index, integer division and modulo by zero, explicit panic, nil struct field read and write, nil method receiver, nil function value, nil map write) planted at a known line, 5% without fault; each run with the optimizer off and on; distinct = distinct program; non-trivial = chain of at least 3 frames"
 	n := 120
 	if c.Thorough() {
-		n = 12000
+		n = 60000
 	}
 	var lines []string
 	type job struct {
